@@ -137,6 +137,13 @@ class C01(Prop):
                 args['method_name'] = t['name']
             if a == 'noname':
                 args['stage'] = 'method_start'
+            if a == 'capture' and (len(exprs) + (t.get('line') or 0)) % 2 == 0:
+                # every other capture tracepoint is configured the way the service does it: the stage is an argument
+                stage = LINE_CAPTURE if t['kind'] == 'line' else METHOD_CAPTURE
+                trig = build_trigger(t['id'], t['path'], t['line'], dict(args, **{STAGE: stage}), list(exprs), [])
+                if trig is not None:
+                    triggers.append(trig)
+                continue
             if a == 'capture':
                 stage = LINE_CAPTURE if t['kind'] == 'line' else METHOD_CAPTURE
                 cfg = dict(args, **{STAGE: stage, 'watches': list(exprs)})
